@@ -57,7 +57,7 @@ fn c14_t_xlsb_ref_row9_l2() {
 #[kani::proof]
 #[kani::unwind(16)]
 #[kani::stub(crate::utils::push_column, crate::k_kcommon::model_push_column_l3)]
-fn c14_q_xlsb_ref_lastrow_l3() {
+fn c14_t_xlsb_ref_lastrow_l3() {
     ptg_ref_case::<0x64, 1048575, 7, 702, 16384, 3>()
 }
 
@@ -116,7 +116,7 @@ fn c14_q_xlsb_ref3d() {
 #[kani::proof]
 #[kani::unwind(20)]
 #[kani::stub(crate::utils::push_column, crate::k_kcommon::model_push_column_l1)]
-fn c14_q_xlsb_area3d() {
+fn c14_t_xlsb_area3d() {
     let ixti: u16 = kani::any();
     kani::assume(ixti < 2);
     let sheets = [String::from("S"), String::from("T2")];
